@@ -135,6 +135,7 @@ type retRec struct {
 	vals []Val
 	st   *State
 	pos  token.Pos
+	blk  *ssa.BasicBlock
 }
 
 type edgeIn struct {
